@@ -11,7 +11,8 @@ open Unifex.Core Unifex.Proto.EventLoop
 theorem loop_stop_race_safe : ∀ s, Reach (sys cfgLoopStopRace) s → safe cfgLoopStopRace s = true :=
   safe_of_check _ { coded with M := 751, W := 200 } 400 _ (by decide +kernel)
 
-theorem stc2_safe : ∀ s, Reach (sys cfgStc2) s → safe cfgStc2 s = true :=
-  safe_of_check _ { coded with M := 409, W := 200 } 400 _ (by decide +kernel)
+/-- single_thread_context, client waits for each completion, then destroys the context -/
+theorem stc_wait_safe : ∀ s, Reach (sys cfgStcWait) s → safe cfgStcWait s = true :=
+  safe_of_check _ { coded with M := 127, W := 200 } 400 _ (by decide +kernel)
 
 end Unifex.Props.C06
